@@ -183,8 +183,19 @@ Proof.
   apply (toc_of_outline d cat root f' fuel); assumption.
 Qed.
 
-(* build_outline + attach produce such a document *)
-Theorem build_holds b f cid rid cat fuel :
+(* the same without the clause "the catalog has neither Dests nor Names": what the read-back theorems over the
+   complete model (Model/TocNamed.v, get_toc with get_named_destinations) need -- Proofs/OutlineProofsNamed.v *)
+Definition holds_any (d : doc) (root : N) (f' : list otree) : Prop :=
+  exists cat,
+    catalog d = Some cat /\ dict_get cat K_Outlines = Some (ORef root 0) /\
+    outline_ok (get_of (d_objects d)) root f' /\ f' <> [] /\
+    (ofsize f' <= S (length (d_objects d)))%nat.
+
+Lemma holds_outline_any d root f' : holds_outline d root f' -> holds_any d root f'.
+Proof. intros [cat [H1 [H2 [_ [H4 [H5 H6]]]]]]. exists cat. exact (conj H1 (conj H2 (conj H4 (conj H5 H6)))). Qed.
+
+(* build_outline + attach produce such a document, whatever else the catalog holds *)
+Theorem build_holds_any b f cid rid cat fuel :
   bookmarks b = map iid f -> f <> [] ->
   Forall (trepr (bookmark_table b)) f ->
   let d := base b in
@@ -194,14 +205,14 @@ Theorem build_holds b f cid rid cat fuel :
   m' < U32_LIMIT ->
   root_id d = Some cid ->
   get_object_mut_id (d_objects d) cid = Some (rid, ODict cat) ->
-  no_name_trees cat ->
   (fheight f <= fuel)%nat ->
   exists b' f',
     numbered (m0 + 1) f f' m' /\
     build_outline fuel b = OOk (Some (m0 + 1, 0), b') /\
-    holds_outline (attach (base b') cid (m0 + 1, 0)) (m0 + 1) f'.
+    holds_any (attach (base b') cid (m0 + 1, 0)) (m0 + 1) f' /\
+    catalog (attach (base b') cid (m0 + 1, 0)) = Some (cat_with cat (m0 + 1, 0)).
 Proof.
-  intros Hroots Hne Htr d m0 m' Hmax Hlim Hroot Hcat Hnn Hfuel.
+  intros Hroots Hne Htr d m0 m' Hmax Hlim Hroot Hcat Hfuel.
   destruct (build_outline_ok b f fuel Hroots Hne Htr Hfuel Hlim)
     as [f' [b' [Hnum [Hbuild [Hmax' [Htrailer [Hok [Hframe Hcreated]]]]]]]].
   fold d m0 in Hnum, Hbuild, Hmax', Hframe, Hcreated, Hok. fold m' in Hnum, Hmax', Hframe, Hcreated.
@@ -238,13 +249,10 @@ Proof.
       pose proof (numbered_range _ _ _ _ k Hnum Hk) as Hr.
       rewrite Hlk2 by lia. destruct (Hcreated (k, 0)) as [dk Hdk]; [split; cbn [fst snd]; [lia | reflexivity]|].
       rewrite Hdk. discriminate. }
+  split; [|exact Hcatalog].
   exists (cat_with cat (m0 + 1, 0)).
   split; [exact Hcatalog|].
   split; [unfold cat_with; rewrite dict_get_set, bytes_eqb_refl; reflexivity|].
-  split.
-  { destruct Hnn as [H1 H2]. unfold cat_with. split; rewrite dict_get_set.
-    + change (bytes_eqb K_Outlines K_Dests) with false. exact H1.
-    + change (bytes_eqb K_Outlines K_Names) with false. exact H2. }
   split.
   { destruct Hok as [Hitems [od Hod]]. constructor.
     - eapply items_ok_ext; [exact Hitems|]. intros k Hk. apply Hget2.
@@ -253,6 +261,36 @@ Proof.
   split.
   { intro X. apply numbered_length in Hnum. rewrite X in Hnum. destruct f; [congruence | discriminate]. }
   rewrite (numbered_ofsize _ _ _ _ Hnum). lia.
+Qed.
+
+(* ... and a catalog without name trees stays without them *)
+Theorem build_holds b f cid rid cat fuel :
+  bookmarks b = map iid f -> f <> [] ->
+  Forall (trepr (bookmark_table b)) f ->
+  let d := base b in
+  let m0 := d_max_id d in
+  let m' := m0 + 1 + 2 * N.of_nat (fsize f) in
+  max_id_bounds d ->
+  m' < U32_LIMIT ->
+  root_id d = Some cid ->
+  get_object_mut_id (d_objects d) cid = Some (rid, ODict cat) ->
+  no_name_trees cat ->
+  (fheight f <= fuel)%nat ->
+  exists b' f',
+    numbered (m0 + 1) f f' m' /\
+    build_outline fuel b = OOk (Some (m0 + 1, 0), b') /\
+    holds_outline (attach (base b') cid (m0 + 1, 0)) (m0 + 1) f'.
+Proof.
+  intros Hroots Hne Htr d m0 m' Hmax Hlim Hroot Hcat Hnn Hfuel.
+  destruct (build_holds_any b f cid rid cat fuel Hroots Hne Htr Hmax Hlim Hroot Hcat Hfuel)
+    as [b' [f' [Hnum [Hbuild [[cat' [H1 [H2 [H4 [H5 H6]]]]] Hcatalog]]]]].
+  fold d m0 in Hnum, Hbuild, H1, H4, H6, Hcatalog. fold m' in Hnum.
+  exists b', f'. split; [exact Hnum|]. split; [exact Hbuild|].
+  exists cat'. split; [exact H1|]. split; [exact H2|]. split; [|exact (conj H4 (conj H5 H6))].
+  rewrite Hcatalog in H1. inversion H1; subst cat'.
+  destruct Hnn as [N1 N2]. unfold cat_with. split; rewrite dict_get_set.
+  - change (bytes_eqb K_Outlines K_Dests) with false. exact N1.
+  - change (bytes_eqb K_Outlines K_Names) with false. exact N2.
 Qed.
 
 (* the conditions of get_toc that depend on the titles and the height, on the numbered forest *)
